@@ -1,7 +1,7 @@
 (* Entry points of the extracted runner: JSON in, JSON out. *)
 From Coq Require Import List NArith ZArith Bool String Ascii.
 From NB Require Import Base.Res Base.Json Base.PyStr Diff.DiffFormat Diff.Patch Diff.Lcs
-     Diff.GenericDiff Diff.Codec Diff.Wf Gen.NbConfig.
+     Diff.GenericDiff Diff.Codec Diff.Wf Gen.NbConfig Sys.Ignore.
 Import ListNotations.
 
 Definition err_name (e : err) : pystr :=
@@ -51,3 +51,7 @@ Definition api_pyeq (a b : json) : json := JBool (py_eqb a b).
 
 Definition nb_config := Gen.NbConfig.nb_config.
 Definition generic_config := Gen.NbConfig.generic_config.
+
+(* notebook diff under the differ table installed for the i-th subset of ignored categories *)
+Definition api_nbdiff_ign (O : oracles) (i : nat) (a b : json) : json :=
+  res_json enc_diff (diff_ O (ignore_config i) (fuel_of a b) [] a b).
